@@ -155,6 +155,7 @@ class Session:
             self.can_decrypt = False
             return
 
+        keys = None
         match tls_version:
             case TlsVersion.TLS13:
                 keys = key_derivator.dev_tls_13_keys(secret_list, key_length, cipher_suite["MAC"]())
@@ -196,6 +197,12 @@ class Session:
                     keys = key_derivator.dev_ssl_30_keys(master_secret, client_random, server_random, key_length,
                                                          mac_length, 2 * key_length + 2 * mac_length,
                                                          cipher_suite["CryptoAlgo"][0], cipher_suite["CryptoAlgo"][1])
+
+        if keys is None:
+            # the logged secret does not fit the negotiated version (e.g. only TLS 1.3 traffic secrets for a TLS 1.2 ServerHello)
+            logging.error(f"No usable secret for {tls_version}")
+            self.can_decrypt = False
+            return
 
         # get block size
         block_size = 0
